@@ -203,6 +203,8 @@ class FromArrayOp:
         r = rng.random()
         if r < ctx.p_auto_chunks:
             chunks = rng.choice(["auto", "auto", "64B", "128B", "1KiB"])
+        elif rng.random() < ctx.p_fine_chunks:
+            chunks = 1  # one element per block along every axis: deep reduction trees, many edges
         else:
             chunks = jsonable_chunks(rand_chunks(rng, shape))
         args = {"src": name, "chunks": chunks}
@@ -276,10 +278,11 @@ class CreationOp:
 RANDOM_DISTS = [
     ("normal", 2), ("uniform", 2), ("random", 0), ("standard_normal", 0), ("integers", 2), ("poisson", 1),
     ("exponential", 1), ("gamma", 2), ("binomial", 2), ("beta", 2), ("chisquare", 1), ("standard_exponential", 0),
+    ("choice", 0), ("choice", 0),
 ]
 RS_DISTS = [
     ("normal", 2), ("uniform", 2), ("random_sample", 0), ("standard_normal", 0), ("randint", 2), ("poisson", 1),
-    ("exponential", 1), ("gamma", 2), ("binomial", 2), ("beta", 2), ("chisquare", 1),
+    ("exponential", 1), ("gamma", 2), ("binomial", 2), ("beta", 2), ("chisquare", 1), ("choice", 0), ("choice", 0),
 ]
 
 
@@ -298,6 +301,8 @@ def dist_params(rng, dist):
         return [rng.choice([5, 10]), rng.choice([0.25, 0.5])]
     if dist == "beta":
         return [rng.choice([1.0, 2.0]), rng.choice([1.5, 3.0])]
+    if dist == "choice":
+        return [rng.choice([5, 20, 100])]
     return []
 
 
@@ -307,6 +312,30 @@ class RandomOp:
 
     @staticmethod
     def gen(rng, ctx, ins):
+        # "twin": a second generator seeded exactly like an earlier one, drawing the same distribution,
+        # size and parameters as that generator's FIRST draw but with another chunking -- equal seeds,
+        # different block grids (the pair a hand-built random name must tell apart)
+        firsts = {}
+        for s_ in ctx.recipe["steps"]:
+            if s_["op"] == "random":
+                firsts.setdefault(s_["args"]["gen"], s_)
+        firsts = [s_ for s_ in firsts.values() if not s_["args"].get("array_param")]
+        if firsts and rng.random() < ctx.p_random_twin:
+            base = rng.choice(sorted(firsts, key=lambda s_: s_["out"]))["args"]
+            gname = f"t{len(ctx.recipe['generators'])}"
+            ctx.recipe["generators"][gname] = dict(ctx.recipe["generators"][base["gen"]])
+            shape = tuple(base["shape"])
+            chunks = jsonable_chunks(rand_chunks(rng, shape))
+            if rng.random() < 0.5:
+                # same number of blocks per axis, shifted boundaries
+                old = normalize_like(base["chunks"], shape)
+                chunks = [list(shift_bounds(rng, c)) for c in old] if old else chunks
+            return {"gen": gname, "dist": base["dist"], "shape": list(shape), "chunks": chunks, "params": list(base["params"])}
+        rsteps = [s_ for s_ in ctx.recipe["steps"] if s_["op"] == "random" and not s_["args"].get("array_param")]
+        if rsteps and rng.random() < ctx.p_random_sibling:
+            # a second array with the identical spec drawn from the SAME generator right after the first
+            # (a different realization that a careless name/seed scheme would conflate with the first)
+            return dict(rng.choice(sorted(rsteps, key=lambda s_: s_["out"]))["args"])
         gname = f"g{rng.randrange(ctx.n_generators)}"
         if gname not in ctx.recipe["generators"]:
             ctx.recipe["generators"][gname] = {
@@ -350,6 +379,63 @@ class RandomOp:
             params[ap["index"]] = abs(v).astype("f8") % 3 + 1.0
         f = getattr(g, a["dist"])
         return f(*params, size=tuple(a["shape"]), chunks=from_json_chunks(a["chunks"]))
+
+
+@op("diag_ops", weight=0.6)
+class DiagOp:
+    """diagonal / trace / diag / vindex: layers whose block coordinates are numpy integers."""
+
+    @staticmethod
+    def gen(rng, ctx, ins):
+        x = ins[0]
+        if not known(x) or 0 in x.shape:
+            return None
+        kind = rng.choice(["diagonal", "trace", "diag", "vindex"])
+        if kind in ("diagonal", "trace"):
+            if x.ndim < 2:
+                return None
+            a1, a2 = rng.sample(range(x.ndim), 2)
+            return {"kind": kind, "offset": rng.randint(-2, 2), "axis1": a1, "axis2": a2}
+        if kind == "diag":
+            if x.ndim not in (1, 2):
+                return None
+            return {"kind": "diag", "k": rng.randint(-2, 2)}
+        if x.ndim < 1:
+            return None
+        n = rng.randint(1, 4)
+        return {"kind": "vindex", "idx": [[rng.randrange(s_) for _ in range(n)] for s_ in x.shape]}
+
+    @staticmethod
+    def apply(env, ins, a):
+        da = _da()
+        x = ins[0]
+        if a["kind"] == "diagonal":
+            return da.diagonal(x, offset=a["offset"], axis1=a["axis1"], axis2=a["axis2"])
+        if a["kind"] == "trace":
+            return da.trace(x, offset=a["offset"], axis1=a["axis1"], axis2=a["axis2"])
+        if a["kind"] == "diag":
+            return da.diag(x, k=a["k"])
+        return x.vindex[tuple(a["idx"])]
+
+
+def normalize_like(chunks, shape):
+    """Explicit per-axis chunk tuples for a JSON chunk spec, or None if it needs the library to resolve."""
+    try:
+        from dask_array._core_utils import normalize_chunks
+
+        return [[int(v) for v in c] for c in normalize_chunks(from_json_chunks(chunks), tuple(shape), dtype="f8")]
+    except Exception:  # noqa: BLE001
+        return None
+
+
+def shift_bounds(rng, c):
+    """Same number of blocks, other boundaries (when the axis has room for it)."""
+    n, k = sum(c), len(c)
+    if k < 2 or n <= k:
+        return c
+    cuts = sorted(rng.sample(range(1, n), k - 1))
+    b = [0] + cuts + [n]
+    return [b[i + 1] - b[i] for i in range(k)]
 
 
 def get_generator(env, gname):
@@ -644,6 +730,12 @@ class ReductionOp:
     @staticmethod
     def gen(rng, ctx, ins):
         x = ins[0]
+        prev = [s_ for s_ in ctx.recipe["steps"] if s_["op"] == "reduction" and ctx.env.vars.get(s_["in"][0]) is x]
+        if prev and rng.random() < ctx.p_reduction_twin:
+            # the same reduction of the same input under another tree fan-in
+            a = dict(rng.choice(sorted(prev, key=lambda s_: s_["out"]))["args"])
+            a["split_every"] = rng.choice([v for v in (2, 3, 4, 8) if v != a.get("split_every")])
+            return a
         f = rng.choice(REDUCTIONS)
         a = {"f": f}
         if 0 in x.shape and f in ("min", "max", "argmin", "argmax", "nanmax"):
@@ -859,7 +951,20 @@ def _gu_mean(x):
     return np.mean(x, axis=-1)
 
 
-fakes.FN_TABLE.update(bw_double=_bw_double, red_chunk=_red_chunk, red_agg=_red_agg, gu_mean=_gu_mean)
+def _bw_centre_on_max(x):
+    return x - x.max()  # raises "zero-size array to reduction operation" on an empty block
+
+
+def _red_chunk_max(x, axis=None, keepdims=False):
+    return np.max(x, axis=axis, keepdims=keepdims)
+
+
+def _red_agg_max(x, axis=None, keepdims=False):
+    return np.max(x, axis=axis, keepdims=keepdims)
+
+
+fakes.FN_TABLE.update(bw_double=_bw_double, red_chunk=_red_chunk, red_agg=_red_agg, gu_mean=_gu_mean,
+                      bw_centre_on_max=_bw_centre_on_max, red_chunk_max=_red_chunk_max, red_agg_max=_red_agg_max)
 
 
 @op("userfn", weight=0.0)
@@ -872,7 +977,7 @@ class UserFnOp:
         if x.dtype.kind in "bc" or x.ndim == 0 or not known(x):
             return None
         kind = rng.choice(["blockwise", "reduction", "gufunc"])
-        a = {"kind": kind, "rec": ctx.rec_fns}
+        a = {"kind": kind, "rec": ctx.rec_fns, "raises_on_empty": rng.random() < 0.4}
         if kind == "reduction":
             a["axis"] = rng.randrange(x.ndim)
         return a
@@ -882,11 +987,13 @@ class UserFnOp:
         da = _da()
         x = ins[0]
         rec = a.get("rec")
+        roe = a.get("raises_on_empty")
         if a["kind"] == "blockwise":
             ind = tuple(range(x.ndim))
-            return da.blockwise(get_fn(env, "bw_double", rec), ind, x, ind, dtype=x.dtype)
+            return da.blockwise(get_fn(env, "bw_centre_on_max" if roe else "bw_double", rec), ind, x, ind, dtype=x.dtype)
         if a["kind"] == "reduction":
-            return da.reduction(x, chunk=get_fn(env, "red_chunk", rec), aggregate=get_fn(env, "red_agg", rec),
+            return da.reduction(x, chunk=get_fn(env, "red_chunk_max" if roe else "red_chunk", rec),
+                                aggregate=get_fn(env, "red_agg_max" if roe else "red_agg", rec),
                                 axis=a["axis"], dtype=x.dtype)
         xr = x.rechunk({x.ndim - 1: -1})
         return da.apply_gufunc(get_fn(env, "gu_mean", rec), "(i)->()", xr, output_dtypes="f8")
@@ -1115,6 +1222,10 @@ class Ctx:
         self.p_masked = 0.03
         self.p_auto_chunks = 0.15
         self.p_array_param = 0.0
+        self.p_random_twin = 0.1
+        self.p_random_sibling = 0.15
+        self.p_reduction_twin = 0.15
+        self.p_fine_chunks = 0.0
         self.p_simlock = 0.0
         self.p_custom_getitem = 0.0
         self.unary_fns = None
